@@ -340,7 +340,17 @@ def prepare_volume(work, plan, data):
     argv = [nii, out] + scaling_args(plan) + storage_args(plan)
     if plan.get("mmap"):
         argv.append("--mmap")
-    return {"dir": d, "nii": nii, "out": out, "argv": argv, "prep": prep}
+    prepd = {"dir": d, "nii": nii, "out": out, "argv": argv, "prep": prep}
+    if plan.get("prepopulate") and not any(x["outcome"] != "ok" for x in prep):
+        # the destination already holds the conversion of ANOTHER volume of the same
+        # geometry (same options): the conversion under test must replace every voxel
+        other = np.flip(data, axis=0).copy() if data.dtype.names is None else data[::-1].copy()
+        nii0 = os.path.join(d, "earlier" + plan.get("ext", ".nii"))
+        write_nifti(nii0, other, affine, plan.get("slope"), plan.get("inter"))
+        r0 = convert_inprocess(dict(prepd, argv=[nii0] + argv[1:])) if not plan.get("sharding") \
+            else convert_subprocess(dict(prepd, argv=[nii0] + argv[1:]))
+        prepd["earlier"] = {"outcome": r0["outcome"], "exit": r0["exit"]}
+    return prepd
 
 
 def convert_inprocess(prepd, timeout=KEY_TIMEOUT):
